@@ -28,6 +28,20 @@ TRUSTED_BASE = [
     'theories/Base/PySemGen.v (exact rationals for numbers that are ints or exactly representable floats, generator = list of yielded items, itertools.repeat / chain)',
     'theories/Base/PySemSeg.v (bytes operations, int(bytes) as PyLong_FromString base 10, compiled regex read as ^?[class]+\\Z, next(iter); StopIteration stands as TypeErr)',
     'theories/Base/PySemExt.v (while loops bounded by fuel; py_unmodelled marks out-of-fuel / ZeroDivisionError / OverflowError, so Ok-results are exact and Err-results partial; bytearray.find; PrimFloat = CPython binary64 round-to-nearest-even, used for N4)',
+    'gen/translate_glue.py (Segments.add_segment / prepare_data / normalize_* / encode_sequence helpers / encode() -> SrcSegments.v, SrcNorm.v, SrcSeq.v, SrcEncodeTop.v; one translation per declared input shape, self replaced by its slots, isinstance decided by the declared type)',
+    'theories/Base/PySemGlue.v (str as code points with int(str) = PyLong_FromUnicodeObject, upper() / lower() = Base/PyCase.v (Python\'s as far as ASCII characters are concerned: tables of the 2 + 17 non-ASCII code points with an ASCII character in their image, compared with the running interpreter by C14), del l[i], dict-literal get, content items py_pitem, math.ceil(a / b) exact below 2^52; py_unmodelled marks ZeroDivisionError and values outside the declared types)',
+    'gen/translate_writers.py (write_txt / xbm / xpm / terminal(_compact) / pbm / pam / ppm -> SrcWrCommon.v, SrcWrText.v, SrcWrNetpbm.v; the with-writable block becomes "the function returns what was written" while writers.writable equals its fingerprint; one-shot iterators as lists with a static single-consumption check; colour helpers as parameters)',
+    'theories/Base/PySemIO.v (output stream = concatenation of the written items, str / bytes as lists of code points / items, str(int), format 02x, join, encode ascii, reduce, zip_longest grouper / pairing, struct.pack >nB with struct.error standing as TypeErr)',
+    'gen/translate_helpers.py (_escape_mecard / _escape_vcard / make_wifi_data / make_mecard_data / make_vcard_data / make_geo_data / make_make_email_data of segno/helpers.py -> SrcHelpers*.v; the three translate() dicts dumped from the imported module; multi-valued arguments typed as lists of str so that isinstance(x, str) is decided by the declared type; str.upper, the _looks_like_datetime regex, float formatting .Nf, str.encode and urllib.parse.quote are parameters of the translated functions)',
+    'theories/Base/PySemStr.v (str as list of code points: translate(dict), join, f-strings as concatenation, format(*seq) parsed by string.Formatter at translation time, rstrip(chars), truthiness narrowing of a str-or-None via py_ostr_get, AttributeError for attributes str does not have)',
+    'gen/translate_route.py (writers.save / QRCodeSequence.save / cli.build_config -> SrcRouteSave.v, SrcRouteSeq.v, SrcRouteCli.v; the serializer call, the gzip wrapper and qrcode.save are parameters recognised by ast equality; the out argument typed as str-or-stream, config values typed by their repr as in Model/Route.v)',
+    'theories/Base/PySemRoute.v (str.rfind / lower / slices, str.format with a run-time format string on ints: {{ }} {k} {k:02d}, anything else is the marker pyr_unmodelled; dict with str keys as insertion-ordered association list; f-strings with literal int specs; truthiness / is None / == str-constant of a value given by its repr for None, bool, int, float, str, list, tuple, dict, set, bytes)',
+    'gen/translate_colors.py (_alpha_value / _hex_to_rgb_or_rgba / _color_to_rgba / _color_to_rgb_or_rgba / _color_to_rgb / _color_is_black / _color_is_white / _color_to_webcolor / _make_colormap and the @colorful wrapper of write_ppm -> SrcColor.v, SrcColorful.v; numbers that are ints or floats at run time as py_cnum, isinstance narrowing, declared types of locals, except ValueError never catches the marker; repr(float) is a parameter of _color_to_webcolor)',
+    'theories/Base/PySemColor.v (str index / slices / substring test for ASCII strs, lower() = Base/PyCase.v py_lower, int(s, 16) = PyLong_FromString base 16, exact int/float equality, \'%.Nf\' % x correctly rounded half-even, float(s) for plain decimals with the marker elsewhere, dict lookups of _NAME2RGB / _ALPHA_COMMONS; PrimFloat = CPython binary64)',
+    'gen/translate_png.py (write_png with png_color / chunk / scanline and its @colorful wrapper -> SrcPng.v; zlib.crc32 / zlib.compress, the iteration order of set() and the colour conversion are parameters; nested functions moved behind the last binding of their free variables; flow-sensitive one-shot iterator check; generators as lists, laziness modelled at the start only)',
+    'theories/Base/PySemPng.v (struct.pack over > B H I L with struct.error as TypeErr, the distinct items of a set (its iteration order is a parameter of the translated function), stable sorted / list.sort by key, dict update, next with StopIteration as AssertErr, any over items that may raise, int // float = CPython float_floor_div with exact fmod on PrimFloat)',
+    'gen/translate_vector.py (write_eps / write_pdf / write_tex -> SrcVecCommon.v, SrcVecEps.v, SrcVecPdf.v, SrcVecTex.v; int-or-float numbers with their exact value (py_vnum), the number kinds of utils.matrix_to_lines by abstract interpretation of its current source, nested tuple targets, next(it), stream procedures for partial(fn, f.write), f.tell(), format specs [+]0<w>d, a sum for unrelated branch types; time.strftime / time.timezone / textwrap.wrap / zlib.compress / repr(float) are parameters)',
+    'theories/Base/PySemVec.v (py_vnum arithmetic: exact while the binary64 operation does not round; str(float) through the parameter ext_q_repr applied to the reduced fraction; py_lines_tag; format(n, [+]0<w>d); f.tell() = items written by this call)',
 ]
 
 
@@ -90,12 +104,48 @@ def build_all(clean=False):
             translator['seg'] = json.loads(r.stdout[r.stdout.index('{'):])
         except Exception:
             translator['seg'] = {'functions': {'*': 'failed: translator crashed'}, 'output': r.stdout[-2000:]}
+        r = run(['/venv/bin/python', os.path.join(VERIF, 'gen', 'translate_glue.py'), REPO, os.path.join(BUILD, 'gen')],
+                timeout=300)       # Segments.add_segment, prepare_data, normalize_*, encode_sequence helpers, encode() (after
+        try:                       # translate.py / translate_seg.py: it refers to SrcVersion / SrcFit / SrcEncode / SrcSegMake)
+            translator['glue'] = json.loads(r.stdout[r.stdout.index('{'):])
+        except Exception:
+            translator['glue'] = {'functions': {'*': 'failed: translator crashed'}, 'output': r.stdout[-2000:]}
         r = run(['/venv/bin/python', os.path.join(VERIF, 'gen', 'translate_writers.py'), REPO, os.path.join(BUILD, 'gen')],
                 timeout=300)       # simple serializers of segno/writers.py (after translate_utils.py: it refers to SrcUtils*.v)
         try:
             translator['writers'] = json.loads(r.stdout[r.stdout.index('{'):])
         except Exception:
             translator['writers'] = {'functions': {'*': 'failed: translator crashed'}, 'output': r.stdout[-2000:]}
+        r = run(['/venv/bin/python', os.path.join(VERIF, 'gen', 'translate_helpers.py'), REPO, os.path.join(BUILD, 'gen')],
+                timeout=300)       # payload builders of segno/helpers.py (SrcHelpers*.v; independent of the other groups)
+        try:
+            translator['helpers'] = json.loads(r.stdout[r.stdout.index('{'):])
+        except Exception:
+            translator['helpers'] = {'functions': {'*': 'failed: translator crashed'}, 'output': r.stdout[-2000:]}
+        r = run(['/venv/bin/python', os.path.join(VERIF, 'gen', 'translate_route.py'), REPO, os.path.join(BUILD, 'gen')],
+                timeout=300)       # output routing: writers.save, QRCodeSequence.save, cli.build_config (SrcRoute*.v; uses SrcTables.v)
+        try:
+            translator['route'] = json.loads(r.stdout[r.stdout.index('{'):])
+        except Exception:
+            translator['route'] = {'functions': {'*': 'failed: translator crashed'}, 'output': r.stdout[-2000:]}
+        r = run(['/venv/bin/python', os.path.join(VERIF, 'gen', 'translate_colors.py'), REPO, os.path.join(BUILD, 'gen')],
+                timeout=300)       # colour helpers of segno/writers.py (SrcColor.v, SrcColorful.v; after translate_writers.py: SrcWrNetpbm.v)
+        try:
+            translator['colors'] = json.loads(r.stdout[r.stdout.index('{'):])
+        except Exception:
+            translator['colors'] = {'functions': {'*': 'failed: translator crashed'}, 'output': r.stdout[-2000:]}
+        r = run(['/venv/bin/python', os.path.join(VERIF, 'gen', 'translate_png.py'), REPO, os.path.join(BUILD, 'gen')],
+                timeout=300)       # write_png and its @colorful wrapper (SrcPng.v; after translate_colors.py: SrcColor.v, SrcWrCommon.v)
+        try:
+            translator['png'] = json.loads(r.stdout[r.stdout.index('{'):])
+        except Exception:
+            translator['png'] = {'functions': {'*': 'failed: translator crashed'}, 'output': r.stdout[-2000:]}
+        r = run(['/venv/bin/python', os.path.join(VERIF, 'gen', 'translate_vector.py'), REPO, os.path.join(BUILD, 'gen')],
+                timeout=300)       # write_eps / write_pdf / write_tex (SrcVec*.v; after translate_utils.py / translate_colors.py: SrcUtilsIter.v, SrcColor.v)
+        try:
+            translator['vector'] = json.loads(r.stdout[r.stdout.index('{'):])
+        except Exception:
+            translator['vector'] = {'functions': {'*': 'failed: translator crashed'}, 'output': r.stdout[-2000:]}
         srcs = coq_sources()
         listfile = os.path.join(BUILD, '.filelist')
         old = open(listfile).read() if os.path.exists(listfile) else ''
